@@ -9,6 +9,8 @@ Ties
         (repeat / change all / change some / in-place mutated argument objects / odd layouts / lists / bad shapes / user
         overwrites of every writable result) and compared call by call with a freshly compiled function and with the exact value
         of the Lean specification evaluator; argument arrays are compared bit for bit before/after.
+        Every program additionally gets the alternating history a0 a1 a0 <overwrite results> a1 a0 (`targeted_search`).  Program kind
+        `dynstruct` (`DynGen`): loop lengths and axis lengths computed from arguments around argument-free data.
         Long-lived owners (solver.System, function.Basis, topology.locate, trim, sample.bind/eval) are exercised in nvh.c03_owners.
 
 Reading of the property (see notes/C03.md): a result that IS (a view of) the caller's own argument array is not a violation —
